@@ -955,7 +955,7 @@ class Interferogram(RichData):
         p = RichData(psd_, 0, self.wavelength)
         p.x = ux
         p.y = uy
-        p.dx = ux[1] - ux[0]
+        p.dx = 1 / (self.dx * self.data.shape[1])  # step of the x frequency axis
         p._default_twosided = False
         return p
 
